@@ -598,6 +598,44 @@ def guarded_by(t, guard):
     return None
 
 
+def settle_monus(t, bounds):
+    """decide the saturating differences monus(a, b) left in a term once the spec knows more than the evaluator did:
+    `bounds` maps an iteration symbol to its trip count (it < n).  monus(a, b) -> a - b when b <= a follows, 0 when a <= b follows;
+    min(a - b, a) -> a - b.  Undecided ones stay."""
+    from .semtab import nonneg_usize_poly
+
+    def le(a, b):
+        d = T.sub(b, a)
+        if nonneg_usize_poly(d):
+            return True
+        bs = [(v, n) for v, n in bounds.items() if any(x is v for x in T.subterms(d))]
+        for mask in range(1, 1 << len(bs)):
+            sub = {v: T.sub(T.sub(n, T.ONE), T.sym('slack:' + T.show(v))) for j, (v, n) in enumerate(bs) if mask >> j & 1}
+            if nonneg_usize_poly(T.subst(d, sub)):
+                return True
+        return False
+    cur = t
+    for _ in range(10):
+        m = {}
+        for x in T.subterms(cur):
+            if T.is_app(x, 'monus'):
+                a, b = x[2]
+                if le(b, a):
+                    m[x] = T.sub(a, b)
+                elif le(a, b):
+                    m[x] = T.ZERO
+            elif T.is_app(x, 'min') and len(x[2]) == 2:
+                a, b = x[2]
+                if le(a, b):
+                    m[x] = a
+                elif le(b, a):
+                    m[x] = b
+        if not m:
+            return cur
+        cur = T.subst(cur, m)
+    return cur
+
+
 def carried_keys(ls):
     """carried places of a loop that actually change: unit accumulators of for_each / fold-to-() and other identity-carried
     places (next is the loop-head value itself) are bookkeeping of the iterator form, not state"""
